@@ -24,6 +24,7 @@ ASSUMPTIONS = ['reference semantics in this file (ref_*), from the docstrings; '
                'ValueError for unresolvable fillers is a rejection (tallied)',
                'never asks for a deletion that would leave no token']
 WATCHDOG = {'quick': 600, 'thorough': 3600}
+PIPELINE_CASES = {'quick': 500, 'thorough': 20000}   # vt/pipeline.py
 MIN = {'quick': {'distinct': 3000,
                  'hooks': {'transform.punctuation_delete': 1000,
                            'transform.ptb_delete_traces': 1000,
@@ -579,8 +580,17 @@ def shard(ctx):
                         'tfile': case.get('tfile'),
                         'tree': model.show(model.from_spec(
                             case['spec']['root']), 'w')}, 4)
+    # ---- inside sequences of other transformations (vt/pipeline.py) ----
+    from . import pipeline
+    pipeline.run(ctx, Cur, ('punctuation_delete',), 1500, 60000)
+
 
 
 def replay(ctx, case):
+    if case.get('kind') == 'pipeline':
+        install(ctx.R)
+        from . import pipeline
+        pipeline.run_case(ctx, Cur, case, ctx.rng('replay'))
+        return
     install(ctx.R)
     run_case(ctx, case, ctx.rng('replay'))
